@@ -66,6 +66,15 @@ type Chan struct {
 	// unbuffered rendezvous: a parked sender's value
 	sendq []*chanSend
 	recvWaiting int
+	selWaiters  []*selWaiter // selects parked on this channel
+}
+
+// selWaiter is a select statement parked on several channels. Like the Go
+// runtime, a parked select is woken by - and commits to - the first of its
+// cases that becomes ready, not to whatever is ready when the goroutine next runs.
+type selWaiter struct {
+	ready     func() []int
+	committed []int
 }
 
 type chanSend struct {
